@@ -237,6 +237,44 @@ Definition round (fx : bool) (w : world) (i j : N) (late : bool) : world :=
   | _, _ => w
   end.
 
+(* A storage fault: the engine refuses to commit the transaction filterPersist opened for this batch
+   (xkv.WithTx rolls it back). Only a transaction that wrote something can fail this way, i.e. one
+   that accepted at least one operation. Nothing is stored, nothing reaches the splitter (no gossip
+   store entry, no observer is told); the rejected operations still go to the feedback sender. *)
+Definition ingest_at_fail (fx : bool) (w : world) (j sender : N) (ops : list op) : world :=
+  match ops, w_nodes w !! j with
+  | _ :: _, Some nd =>
+      match ingest (n_eng nd) ops with
+      | (_, [], _) => ingest_at fx w j sender ops
+      | (_, _ :: _, rej) =>
+          World (w_nodes w) (w_msgs w)
+                (match rej, w_nodes w !! sender with
+                 | _ :: _, Some _ => w_fbs w ++ [Fb sender j (map strip rej) false]
+                 | _, _ => w_fbs w
+                 end)
+      end
+  | _, _ => w
+  end.
+
+(* ingestion at node j while node [fn]'s next ingress commit is set to fail *)
+Definition ingest_at_f (fx : bool) (fn : N) (w : world) (j sender : N) (ops : list op) : world :=
+  if bool_decide (fn = j) then ingest_at_fail fx w j sender ops else ingest_at fx w j sender ops.
+
+Definition round_f (fx : bool) (fn : N) (w : world) (i j : N) (late : bool) : world :=
+  match w_nodes w !! i, w_nodes w !! j with
+  | Some _, Some _ =>
+      if bool_decide (i = j) then w else
+      match payload w i with
+      | [] => w
+      | pl =>
+          if late then
+            let w1 := ingest_at_f fx fn w j i pl in ingest_at_f fx fn w1 i j (payload w1 j)
+          else
+            let reply := payload w j in ingest_at_f fx fn (ingest_at_f fx fn w j i pl) i j reply
+      end
+  | _, _ => w
+  end.
+
 (* kv.Open on the same engine: counter and engine persist; gossip store, repetitions, pending
    recoveries and subscribers are lost. *)
 Definition restart (w : world) (n : N) : world :=
@@ -264,6 +302,12 @@ Definition stall (w : world) (n s : N) : world :=
   | None => w
   end.
 
+(* the steps during which a gossip batch is ingested *)
+Inductive gstep :=
+| GInject (n sender : N) (b : list op)
+| GDeliver (m : nat) (n : N)
+| GRound (i j : N) (late : bool).
+
 Inductive step_t :=
 | SWrite (n k v lease : N)          (* DB.Set on node n (lease 0 = no option) *)
 | SDel (n k : N)                    (* DB.Delete on node n *)
@@ -278,6 +322,7 @@ Inductive step_t :=
 | SRecEnd (n p : N)                 (* runSingleNodeRecovery: stream + apply + commit *)
 | SRecover (n p : N)                (* both, back to back *)
 | SSub (n s : N) (filter : bool)    (* DB.OnChange / NewObservable(IgnoreHostLeaseholder).OnChange *)
+| SFaulty (n : N) (g : gstep)       (* step g, during which node n's ingress transaction fails to commit *)
 | SStall (n s : N).                 (* subscriber s stops keeping up (its handler blocks and its buffers overflow):
                                        from here on what it is handed is unspecified — the drop hypothesis *)
 
@@ -304,6 +349,13 @@ Definition step (fx : bool) (T : N) (w : world) (s : step_t) : world * N :=
   | SRecEnd n p => (rec_end w n p, 0)
   | SRecover n p => (rec_end (rec_begin w n p) n p, 0)
   | SSub n s filter => (subscribe w n s filter, 0)
+  | SFaulty fn (GInject n sender b) => (ingest_at_f fx fn w n sender b, 0)
+  | SFaulty fn (GDeliver m n) =>
+      match w_msgs w !! m with
+      | Some (sender, ops) => (ingest_at_f fx fn w n sender ops, 0)
+      | None => (w, 0)
+      end
+  | SFaulty fn (GRound i j late) => (round_f fx fn w i j late, 0)
   | SStall n s => (stall w n s, 0)
   end.
 
